@@ -88,6 +88,36 @@ def job(args):
         al = frozen_in(res)
         ob('Z4', construct, not al, f"the returned object holds input storage {al[:3]}" if al else "result holds no input storage", fi.loc())
     units.update(w.interp.funcs_seen)
+    # Z1d: the same for a variable whose change-tracking flags are raised (value edited in place / boundary condition edited,
+    # no solve yet): a builder is a function of the values it is given - it neither rebinds attributes of its argument nor
+    # recomputes its ghost layer nor clears its flags
+    wd = World(sm, cls)
+    for fn_mod, fn, mk in [('calculus', 'gradientTerm', lambda p, v: (p,)), ('calculus', 'gradientTermFixedBC', lambda p, v: (p,)),
+                           ('averaging', 'linearMean', lambda p, v: (p,)), ('averaging', 'arithmeticMean', lambda p, v: (p,)),
+                           ('averaging', 'geometricMean', lambda p, v: (p,)), ('averaging', 'harmonicMean', lambda p, v: (p,)),
+                           ('averaging', 'upwindMean', lambda p, v: (p, v)), ('advection', 'convectionTVDupwindRHSTerm', lambda p, v: (v, p, FL)),
+                           ('source', 'linearSourceTerm', lambda p, v: (p,)), ('source', 'constantSourceTerm', lambda p, v: (p,)),
+                           ('source', 'transientTerm', lambda p, v: (p, dt, Rat.atom(('alpha',))))]:
+        fi = sm.func(fn_mod, fn)
+        bcd = wd.boundary_conditions()
+        pd = wd.cell_variable('phi', bcd)
+        pd.attrs['_value'].attrs['_modified'] = True
+        bcd.attrs['left'].attrs['_c'].attrs['_modified'] = True
+        vd = wd.face_variable('u')
+        wd.ctx.events.clear()
+        n0 = len(wd.interp.oplog)
+        construct = f"{fn_mod}.{fn}/dirty-argument"
+        try:
+            wd.call(fn_mod, fn, *mk(pd, vd))
+        except AbstractRaise as e:
+            ob('Z1', construct, False, f"raises {e.exc}: {e.msg}", fi.loc())
+            continue
+        muts = sorted({(str(e[1]), e[2], e[3]) for e in wd.ctx.events if e[0] == 'input-mutated'})
+        rebinds = sorted({op[1] for op in wd.interp.oplog[n0:] if op[0] == 'write' and op[2] == pd.id})
+        flags_kept = pd.attrs['_value'].attrs.get('_modified') is True and bcd.attrs['left'].attrs['_c'].attrs.get('_modified') is True
+        ob('Z1', construct, not muts and not rebinds and flags_kept,
+           f"argument with raised flags: stores {muts[:2]}, rebinds attributes {rebinds}, flags kept: {flags_kept}" if (muts or rebinds or not flags_kept)
+           else "argument with raised flags is left exactly as given", fi.loc())
     # Z3
     from .c04 import make_solve_world
     ws, phis, T, rec = make_solve_world(sm, cls)
